@@ -47,8 +47,10 @@ class Buf:
 
 LEGIT_FATAL_PUSHBACK = 'flex scanner push-back overflow'
 LEGIT_FATAL_REJECT = "input buffer overflow, can't enlarge buffer because scanner uses yyreject()"
+LEGIT_FATAL_REJECT_PREFIX = "input buffer overflow, can't enlarge buffer because scanner uses"
 FATAL_UNDERFLOW = 'start-condition stack underflow'
 FATAL_YYLMAX = 'token too large, exceeds YYLMAX'
+FATAL_YYLMAX_PREFIX = 'token too large, exceeds'
 
 
 class Model:
@@ -58,7 +60,7 @@ class Model:
         self.inst = inst
         self.use_matcher = use_matcher and sc.model_safe()
         self.default_buf_size = sc.buf_size or default_buf_size
-        self.yylmax = yylmax
+        self.yylmax = getattr(sc, 'yylmax', None) or yylmax
         self.viol = []
         self.stats = {}
         self.notes = set()
@@ -229,7 +231,7 @@ class Model:
             self.v('fatal', ev, 'push-back overflow with %d delivered + %d pushed in a %d-byte buffer' % (
                 b.delivered if b else -1, b.pushes if b else -1, size))
             return
-        if msg == LEGIT_FATAL_REJECT and self.sc.reject or (msg == LEGIT_FATAL_REJECT and self.sc.has_vtc()):
+        if msg.startswith(LEGIT_FATAL_REJECT_PREFIX):
             size = b.size if b and b.size else self.default_buf_size
             need = len(b.held if b else self.orphan) + len(self.yytext) + self.inputs_in_action + len(self.more_prefix)
             if need >= size - 1:
@@ -237,9 +239,10 @@ class Model:
                 return
             self.v('fatal', ev, 'REJECT buffer overflow with only %d bytes to hold in a %d-byte buffer' % (need, size))
             return
-        if msg == FATAL_YYLMAX and self.sc.array:
+        if msg.startswith(FATAL_YYLMAX_PREFIX) and self.sc.array:
             b = self.cur()
-            need = len(b.held if b else self.orphan) + len(self.more_prefix)
+            pre = len(self.yytext) if self.more_next else (len(self.more_prefix) if self.rejecting else 0)
+            need = len(b.held if b else self.orphan) + pre
             if need + 1 >= self.yylmax:
                 self.stat('legit-yylmax')
                 return
